@@ -700,6 +700,36 @@ def check_C14(tier, seed, replay=None):
         for th in ("la", "lb"):
             for wrap2 in (False, True):
                 probe(lambda g: reenter(g, labs2, th, wrap2))
+    # the handlers in force while a RECOVERY EXPRESSION runs are those in force at the throw: an operator nested inside the
+    # guarded expression of the one whose recovery expression is running still catches what that expression throws
+    def inner_visible(g, rec_inner, rec_outer_pre, labs_inner, body_wrap):
+        body = g.seq([g.lit([F.A]), g.throw("la")])
+        if body_wrap:
+            body = g.seq([g.un(body_wrap, body), g.un("opt", g.lit([F.B]))])
+        inner = g.recover(body, rec_inner(g), labs_inner)
+        outer_rec = g.seq([rec_outer_pre(g), g.throw("lb")]) if rec_outer_pre else g.throw("lb")
+        g.rules = [g.action(g.seq([g.label(g.recover(inner, outer_rec, ["la"])), g.un("star", g.any())]))]
+    for rec_inner in (lambda g: g.action(g.lit([X])), lambda g: g.lit([]), lambda g: g.seq([g.lit([X]), g.lit([X])])):
+        for pre in (None, lambda g: g.un("opt", g.lit([X])), lambda g: g.lit([F.B])):
+            for labs_inner in (["lb"], ["lc", "lb"], ["lc"]):
+                for wrap in (None, "opt", "star"):
+                    probe(lambda g: inner_visible(g, rec_inner, pre, labs_inner, wrap))
+    # several throws under ONE activation of an operator whose recovery expression itself contains recovery operators (which
+    # push and pop handlers of their own while it runs): every one of the throws is served
+    def many_throws(g, rec_kind, rep, in_rule):
+        item = g.choice([g.action(g.lit([F.A])), g.throw("la")])
+        if rec_kind == 0:
+            rec = g.recover(g.lit([X]), g.lit([F.B]), ["lb"])
+        elif rec_kind == 1:
+            rec = g.recover(g.seq([g.lit([X]), g.un("opt", g.throw("lb"))]), g.lit([]), ["lb"])
+        else:
+            rec = g.seq([g.recover(g.lit([X]), g.lit([F.B]), ["lb"]), g.recover(g.un("opt", g.lit([F.B])), g.lit([X]), ["lc", "la"])])
+        guarded = g.un(rep, g.ref(2) if in_rule else item)
+        g.rules = [g.action(g.seq([g.label(g.recover(guarded, g.action(rec), ["la"])), g.un("star", g.any())]))] + ([item] if in_rule else [])
+    for rec_kind in range(3):
+        for rep in ("star", "plus"):
+            for in_rule in (False, True):
+                probe(lambda g: many_throws(g, rec_kind, rep, in_rule))
     cfg = F.RandCfg(depth=depth, maxrules=3, throw=True, preds=True, blocks=True, errs=0.1)
     groups += F.random_groups(seed, n, cfg, gi0=len(groups) + 1)
     cfg2 = F.RandCfg(depth=depth, maxrules=3, throw=True, state=True, cloner=True, blocks=True)
@@ -1000,6 +1030,24 @@ def check_C07(tier, seed, replay=None):
         return g
     special.append(lambda gi: defined_twice(gi, False))
     special.append(lambda gi: defined_twice(gi, True))
+    # a throw in one rule, the recovery operator that serves it in ANOTHER (recovery is dynamically scoped): when the recovery
+    # expression can match the empty string the throw consumes nothing, and what follows it can lead back into an active rule
+    def cross_rule_throw(gi, reck, tk, loopk):
+        g = _G(gi)
+        rec = [lambda: g.lit([]), lambda: g.un("opt", g.lit([F.A])), lambda: g.un("star", g.lit([F.A])), lambda: g.lit([F.A])][reck]()      # the last one consumes
+        thr = [lambda: g.throw("la"), lambda: g.seq([g.un("opt", g.lit([F.A])), g.throw("la")]), lambda: g.choice([g.lit([F.A]), g.throw("la")])][tk]()
+        # rule 1: the operator; rule 2: the loop through the throwing rule 3
+        loop = [lambda: g.choice([g.seq([g.ref(3), g.ref(2)]), g.lit([F.B])]), lambda: g.seq([g.un("star", g.seq([g.ref(3), g.ref(2)])), g.lit([F.B])]),
+                lambda: g.choice([g.seq([g.ref(3), g.lit([F.A]), g.ref(2)]), g.lit([F.B])])][loopk]()                                         # the last one consumes before it recurses
+        g.rules = [g.recover(g.ref(2), rec, ["la"]), loop, thr]
+        g.disp = [""] * 3
+        g.compute_args()
+        g.maydiverge = True
+        return g
+    for reck in range(4):
+        for tk in range(3):
+            for loopk in range(3):
+                special.append(lambda gi, reck=reck, tk=tk, loopk=loopk: cross_rule_throw(gi, reck, tk, loopk))
     builders = special + builders
     groups = [b(i + 1) for i, b in enumerate(builders)]
     pigeon = P.build_pigeon()
@@ -1149,14 +1197,18 @@ def check_C19(tier, seed, replay=None):
         return P.run_tlc("LeftRecOrders", P.T1_CFG, {"groups.ndjson": ("path", pth)}, workers=1, timeout=1800, heap="4g")
     res = P.parallel(tlc, [c for c in chunks if c], workers=12)
     sens, states, trans = [], 0, 0
+    adv = []
     for r in res:
         if "DONE" not in r["out"]:
             raise P.Inconclusive("LeftRecOrders did not finish:\n" + r["out"][-2000:])
         for m in re.finditer(r'"SENS (.*)"', r["out"]):
             sens.append(json.loads(m.group(1).replace('\\"', '"'))["gi"])
+        for m in re.finditer(r'"ADV (.*)"', r["out"]):
+            adv.append(json.loads(m.group(1).replace('\\"', '"'))["gi"])
         states += r.get("distinct", 0)
         trans += r.get("generated", 0)
-    sens_set = set(sens)
+    nsens = len(set(sens))
+    sens_set = set(sens) | set(adv)        # order-sensitive now (none expected since the repair of F28) or before it (adversarial)
     chosen = [g for g in groups if g.gi in sens_set or g.gi in dense_ids]
     others = [g for g in groups if g.gi not in sens_set and g.gi not in dense_ids]
     rng.shuffle(others)
@@ -1168,10 +1220,11 @@ def check_C19(tier, seed, replay=None):
     jobs = []
     for g in chosen:
         pth = os.path.join(d, "g%d.peg" % g.gi)
+        g.oneline = g.gi % 2 == 0          # every second grammar has all its rules on one source line (nothing may be keyed by the line alone)
         texts[g.gi] = pack_text([g])
         with open(pth, "w") as f:
             f.write(texts[g.gi])
-        for fi, fl in enumerate(flagsets if g.gi in sens_set else flagsets[:1]):
+        for fi, fl in enumerate(flagsets if (g.gi in sens_set or g.gi in dense_ids or g.gi % 4 == 0) else flagsets[:1]):
             jobs.append((g, pth, fl))
     # the optimizer's own maps: merged character classes with repeated Unicode classes, inlined leaf rules (idiom family)
     ucl_names = ["Lu", "Ll", "Nd", "L", "N", "Greek", "Latin", "Zs", "P"]
@@ -1301,7 +1354,7 @@ def check_C19(tier, seed, replay=None):
     cov = dict(evaluations=len(jobs) * K + inproc * K, distinct_nontrivial=len(chosen), states=max(states, 1), transitions=max(trans, 1),
                rule="TLC (LeftRecOrders.tla) evaluates pigeon's transcribed analysis under every rule-visiting order for each grammar of the C07 family and reports the order-sensitive ones; those (all flag sets), a sample of the others, and packs of 40 groups (> 80 rules, with -optimize-grammar) are run K times through the real command (Go randomises map iteration per process) and K times inside one process through the hook; outputs must be byte-identical; non-trivial = a grammar with at least one rule reference",
                samples=[dict(grammar=texts[g.gi], order_sensitive=g.gi in sens_set) for g in chosen[:3]],
-               order_sensitive_grammars=len(sens_set), grammars_run=len(chosen), command_jobs=len(jobs), runs_per_job=K, inprocess_requests=inproc)
+               order_sensitive_grammars=nsens, adversarial_grammars_order_sensitive_before_F28=len(set(adv)), grammars_run=len(chosen), command_jobs=len(jobs), runs_per_job=K, inprocess_requests=inproc)
     return run.finish("exploration", cov, ["schedules (map iteration orders) are sampled on the real code, enumerated only in the model"])
 
 
@@ -2364,16 +2417,42 @@ def check_C18(tier, seed, replay=None):
         groups.append(g)
     lrg = F.lr_groups(seed, n // 3, gi0=len(groups) + 1)
     groups += lrg
+    # character classes with Unicode classes, ranges and case folding on input beyond Latin-1: whatever the class matcher
+    # looks up or remembers lives in the grammar table, which all concurrent parses share (a pack of its own; its solo runs
+    # are not judged by PegRef here -- C01 does that -- only compared with the concurrent ones, under the race detector)
+    ug = []
+    ucls = ["[\\p{L}]", "[\\p{Nd}]", "[\\p{Greek}]", "[\\pL\\pN]", "[^\\p{Lu}]", "[\\p{Ll}]i", "[\u03b1-\u03c9]i", "[\\p{Han}\u20ac]", "[^\\pL\\p{Nd} ]", "[\\p{Devanagari}\\p{Cyrillic}]", "[\u0391-\u03a9\\p{Sc}]", "[\u00e9\u0416]i"]
+    for k_ in range(8):
+        g = Gram(len(groups) + len(ug) + 1)
+        rr = random.Random(seed * 13 + k_)
+        alts = []
+        for txt in rr.sample(ucls, 4):
+            c_ = g.mk(k="cls", want=list(txt.encode()))
+            alts.append(g.action(g.un("plus", c_)) if rr.random() < 0.6 else c_)
+        g.rules = [g.action(g.un("star", g.choice(alts + [g.any()])))]
+        g.disp = [""]
+        g.compute_args()
+        g.maydiverge = False
+        g.tags.add("uclass")
+        ug.append(g)
     inputs = F.all_inputs([F.A, F.B], 3) + F.all_inputs([F.NN, F.PLUS, F.STAR_], 3)
+    u_first = len(inputs)
+    urunes = [0x3B1, 0x3A9, 0x967, 0x4E2D, 0xE9, 0x416, 0x436, 0x20AC, 97, 49, 32, 0x391, 0x3C9, 0x1F600]
+    ur = random.Random(seed + 77)
+    for _ in range(60):
+        inputs.append([b for _r in range(ur.randint(3, 7)) for b in F.utf8(ur.choice(urunes))])
+    uin = list(range(u_first, len(inputs)))
     options = [opt(), opt(memo=True), opt(maxexpr=40), opt(allowinv=True, stats=False), opt(memo=True, maxexpr=3000),
                opt(via="reader"), opt(via="reader", maxexpr=3000)]          # the other entry points of the package share whatever ParseReader shares
     # calls with very few options (the per-parse log, optionally Memoize): only possible for the default entry rule
     few = [len(options), len(options) + 1, len(options) + 2]
     options += [opt(entry="-", stats=False), opt(entry="-", stats=False, memo=True), opt(entry="-", stats=False, allowinv=True)]
-    nin = len(inputs)
+    nin = u_first
     rng = random.Random(seed)
 
     def plan_for(g):
+        if "uclass" in g.tags:
+            return [(ii, oi) for ii in uin for oi in (0, 1, 3)]
         pl = []
         for ii in range(nin):
             for oi in range(len(options) - 3):
@@ -2386,7 +2465,8 @@ def check_C18(tier, seed, replay=None):
         return pl
     pigeon = P.build_pigeon()
     from rt import pack_groups
-    packs = pack_groups(groups, 200)
+    packs = pack_groups(groups, 200) + [ug]
+    groups = groups + ug
     variants = []
     for pi, pk in enumerate(packs):
         fl = ["-support-left-recursion"] if "lr" in pk[0].tags else []
@@ -2427,7 +2507,7 @@ def check_C18(tier, seed, replay=None):
         return solo, conc, solo_err, getattr(v, "last_stderr", ""), getattr(v, "conc_failure", None), len(plan)
     res = P.parallel(prep, variants, workers=4)
     run.variants, run.groups, run.inputs, run.options = variants, groups, inputs, options
-    run.obs = [r_[0] for r_ in res]
+    run.obs = [r_[0] for r_, v_ in zip(res, variants) if "uclass" not in v_.groups[0].tags]
     gp = os.path.join(P.workdir(), "groups.ndjson")
     dump_groups(groups, gp)
     tcase = dict(inputs=inputs, options=options, lower=[[0, 0]], uclass=[[0]], cmp=dict(store=True, errs=True, ctx=False, norm=False), kf=["F21", "F2"], strict=[0])
